@@ -13,6 +13,7 @@ import Sourcer.Proofs.ModulesProofs
 import Sourcer.Syntax
 import Sourcer.Proofs.EnvProofs
 import Sourcer.Proofs.OpShape
+import Sourcer.Proofs.FuelMono
 import Sourcer.Proofs.EnvSubst
 /-
   Property theorems (statements only; proofs are one-liners over Sourcer/Proofs/*).
@@ -39,6 +40,19 @@ theorem C01_codegen_refines_peg {F : FlagTable} (hF : LocallySound F) (P : Progr
     (h : peg P inp fuel e p = some res) :
     ∃ r, gen F P inp fuel e p = some r ∧ Rel r res :=
   gen_refines hF P inp fuel e p res h
+
+/-- The documented meaning does not depend on the amount of fuel: once defined, it is defined with
+    the same outcome for every larger amount.  (So "wherever `peg` is defined" speaks about one
+    partial function of program, input, expression and position.) -/
+theorem C01_meaning_independent_of_fuel (P : Program) (inp : List Nat) (n m : Nat) (hnm : n ≤ m)
+    (e : Expr) (p : Nat) (res : Res) (h : peg P inp n e p = some res) : peg P inp m e p = some res :=
+  peg_mono P inp n m hnm e p res h
+
+/-- … and the generated code agrees with it for every amount of fuel from there on -/
+theorem C01_codegen_refines_peg_from_there_on {F : FlagTable} (hF : LocallySound F) (P : Program)
+    (inp : List Nat) (n m : Nat) (hnm : n ≤ m) (e : Expr) (p : Nat) (res : Res)
+    (h : peg P inp n e p = some res) : ∃ r, gen F P inp m e p = some r ∧ Rel r res :=
+  gen_refines hF P inp m e p res (peg_mono P inp n m hnm e p res h)
 
 /-- a concrete program for the non-vacuity examples: rule 0 is `A = "a" >> "b"`, which fails
     *after consuming* on `aa` -/
